@@ -243,3 +243,48 @@ func TestGenerateConcaveAndEdge(t *testing.T) {
 		t.Fatal("too few edge truths")
 	}
 }
+
+func TestGenerateTinyAndForms(t *testing.T) {
+	small := 0
+	for i := 0; i < 1500; i++ {
+		r := gen.New(uint64(i), "t")
+		tr, m := GenerateTiny(r)
+		if err := tr.Validate(m); err != nil {
+			t.Fatal(err)
+		}
+		for _, p := range tr.Polys {
+			minX, maxX := p.Outer[0].X, p.Outer[0].X
+			for _, v := range p.Outer {
+				minX, maxX = min64(minX, v.X), max64(maxX, v.X)
+			}
+			if maxX-minX > 36 {
+				t.Fatalf("outer %d steps wide", maxX-minX)
+			}
+			if maxX-minX <= 4 {
+				small++
+			}
+		}
+		in := GridInstance(r, tr)
+		// coordinate forms: same way-node sequences, refs dropped / ways embedded as documented
+		w, z, mz := in.OSMForm("W", nil), in.OSMForm("Z", nil), in.OSMForm("MZ", nil)
+		if len(z.Ways) != len(w.Ways) || len(mz.Ways) != 0 || len(z.Nodes) != len(w.Nodes) {
+			t.Fatal("forms")
+		}
+		for k := range w.Ways {
+			for j, wn := range w.Ways[k].Nodes {
+				zn := z.Ways[k].Nodes[j]
+				if zn.ID != 0 || zn.Lat != wn.Lat || zn.Lon != wn.Lon || wn.ID == 0 {
+					t.Fatal("Z form")
+				}
+			}
+		}
+		for _, m := range mz.Relations[0].Members {
+			if m.Type == "way" && (len(m.Nodes) < 2 || m.Nodes[0].ID != 0 || (m.Nodes[0].Lat == 0 && m.Nodes[0].Lon == 0)) {
+				t.Fatal("MZ form")
+			}
+		}
+	}
+	if small < 500 {
+		t.Fatalf("only %d outers of at most 4 steps", small)
+	}
+}
